@@ -261,3 +261,56 @@ def dominating_edge_labels(cfg, body, ev, block, entry=0):
             if lab and not reaches_without(cfg, [entry], block, cut_edges=[(gb, s)]):
                 out.append(lab)
     return out
+
+
+def early_exits(body, cfg, loop):
+    """edges that leave a `for` loop other than by exhausting its iterator (break, return, ?): list of
+    (source block, target block, where).  The exhaustion edge is the one the for-loop desugaring itself takes on None;
+    unwinding is not in the normal CFG."""
+    out = []
+    for x in sorted(loop):
+        blk = body.blocks[x]
+        if blk["cleanup"]:
+            continue
+        for s in cfg.succ[x]:
+            if s in loop:
+                continue
+            t = blk["term"]
+            if t["k"] == "switch" and "desugar:ForLoop" in t["span"].get("exp", ""):
+                continue
+            out.append((x, s, t["span"]["at"]))
+    return out
+
+
+def loops_by_head(cfg):
+    """head -> all blocks of the loop (union over the back edges that share the head: every `continue` adds one)"""
+    out = {}
+    for be in cfg.back_edges():
+        out.setdefault(be[1], set()).update(cfg.natural_loop(be))
+    return out
+
+
+def for_loops_with_early_exit(body, cfg):
+    """`for` loops of a body (loops that have the desugaring's own exhaustion edge) that can also be left early:
+    list of (head, where the loop is, [early exit edges])"""
+    out = []
+    for h, lp in sorted(loops_by_head(cfg).items()):
+        is_for = any(body.blocks[x]["term"]["k"] == "switch" and "desugar:ForLoop" in body.blocks[x]["term"]["span"].get("exp", "") and any(s not in lp for s in cfg.succ[x]) for x in lp)
+        if not is_for:
+            continue
+        ee = early_exits(body, cfg, lp)
+        if ee:
+            out.append((h, body.blocks[h]["term"]["span"]["at"], ee))
+    return out
+
+
+def check_whole_loops(R, key, body, cfg, what, allowed=()):
+    """obligation: every `for` loop of the body runs over its whole range (no break / return out of it), except the
+    loops whose early exit is part of the definition (`allowed`: predicates on the exit edge's source line text)"""
+    bad = []
+    for h, at, ee in for_loops_with_early_exit(body, cfg):
+        ee = [e for e in ee if not any(a(e) for a in allowed)]
+        if ee:
+            bad.append("loop at %s left early at %s" % (at, ", ".join(e[2] for e in ee)))
+    n = sum(1 for h, lp in loops_by_head(cfg).items())
+    R.check(not bad, key, "%s (every `for` loop is left only when its iterator is exhausted; %d loops looked at): %s" % (what, n, bad), body.span)
